@@ -101,6 +101,10 @@ structure Dev where
   lock : Nat := 0
   /-- device acquiring (`AcquisitionStart` written, `AcquisitionStop` not yet) -/
   acquiring : Bool := false
+  /-- the payload channel that connects the live receive loop with the `PayloadReceiver` that
+  `start_streaming` returned to the caller: `(payload capacity, buffer capacity)`; `none` when
+  no loop holds a sender whose peer the caller has -/
+  chan : Option (Nat × Nat) := none
   deriving Repr, DecidableEq, Inhabited
 
 structure State where
@@ -182,16 +186,22 @@ def enableOp (env : Env) : M Unit :=
 def disableOp (env : Env) : M Unit :=
   subOp env .disable true ctrlErr (fun d => { d with enabled := false })
 
-/-- `start_streaming_loop`: a permissive stream handle — it does not itself refuse a second
-loop (so that the camera's own check is what the theorems are about). -/
-def loopStartOp (env : Env) : M Unit :=
+/-- `DEFAULT_BUFFER_CAP` of `start_streaming` (capacity of the give-back channel). -/
+def DEFAULT_BUFFER_CAP : Nat := 5
+
+/-- `start_streaming_loop(sender, ..)`: a permissive stream handle — it does not itself refuse a
+second loop (so that the camera's own check is what the theorems are about).  The loop keeps
+the `sender` end of `channel(cap, DEFAULT_BUFFER_CAP)`; the caller gets the `receiver` end of
+the SAME channel. -/
+def loopStartOp (env : Env) (cap : Nat) : M Unit :=
   subOp env .loopStart false (fun _ => .streamIo)
-    (fun d => { d with loops := d.loops + 1, loopFlag := true })
+    (fun d => { d with loops := d.loops + 1, loopFlag := true, chan := some (cap, DEFAULT_BUFFER_CAP) })
 
 def loopStopOp (env : Env) : M Unit :=
   subOp env .loopStop false (fun _ => .streamPoisoned)
-    (fun d => { d with loops := d.loops - 1, loopFlag := decide (0 < d.loops - 1) })
-    (fun d => if env.stopFailKills then { d with loops := d.loops - 1, loopFlag := false } else d)
+    (fun d => { d with loops := d.loops - 1, loopFlag := decide (0 < d.loops - 1), chan := none })
+    (fun d => if env.stopFailKills then { d with loops := d.loops - 1, loopFlag := false, chan := none }
+      else d)
 
 /-! ### GenApi node operations through `ParamsCtxt` -/
 
@@ -257,7 +267,7 @@ def startStreaming (env : Env) (cap : Nat) : M Unit := do
     expectNode x.startOk
     acqStartOp env
     -- self.strm.start_streaming_loop(sender, &mut self.ctrl)?;
-    loopStartOp env
+    loopStartOp env cap
 
 /-- `Camera::stop_streaming` -/
 def stopStreaming (env : Env) : M Unit := do
